@@ -26,6 +26,7 @@ typedef struct {
 	unsigned char *data; size_t dlen;
 	unsigned char *sa; size_t salen;
 	long long val, len;
+	int has_x; long long xval;   /* poll: revents given exactly (x=) instead of `events | v` */
 } Entry;
 
 #define MAXQ 4096
@@ -65,6 +66,9 @@ static void print_hex (const unsigned char *p, size_t n) {
 #define MAXFD 4096
 static unsigned char cloexec_tab[MAXFD];
 static int n_send, n_send_nosig;
+/* direct oracle for "a call fails for a real reason": a native failure of a data call / of the wait other than EINTR / EAGAIN
+ * after which the library went on issuing native calls (sw= in the answer; `-` when there is none) */
+static long long pend_err, sw_err; static int have_pend, have_sw;
 
 /* caller's buffers (to report pointer offsets) */
 static const char *cur_buf; static size_t cur_cap;
@@ -77,10 +81,18 @@ static Entry *pop (int sys) {
 	if (qh == qt) { snprintf (stop_msg, sizeof stop_msg, "exhausted"); longjmp (stop_jmp, 1); }
 	Entry *e = &q[qh];
 	if (e->sys != sys) { snprintf (stop_msg, sizeof stop_msg, "mismatch %s %s", sys_names[sys], sys_names[e->sys]); longjmp (stop_jmp, 1); }
+	if (have_pend && !have_sw) { have_sw = 1; sw_err = pend_err; }
 	qh++;
 	return e;
 }
-static long long fin (Entry *e) { if (e->is_err) { errno = (int) e->ret; return -1; } return e->ret; }
+static long long fin (Entry *e) {
+	if (e->is_err) {
+		if ((e->sys == S_recv || e->sys == S_recvfrom || e->sys == S_send || e->sys == S_sendto || e->sys == S_accept || e->sys == S_poll)
+		    && e->ret != EINTR && e->ret != EAGAIN && e->ret != EWOULDBLOCK && !have_pend) { have_pend = 1; pend_err = e->ret; }
+		errno = (int) e->ret; return -1;
+	}
+	return e->ret;
+}
 
 /* ------------------------------------------------------------------ wrappers */
 int __real_socket (int, int, int);
@@ -217,7 +229,7 @@ int __wrap_poll (struct pollfd *pfd, nfds_t n, int timeout) {
 	Entry *e = pop (S_poll); iss ("poll:%d:%d:%d:%lu", pfd->fd, (int) pfd->events, timeout, (unsigned long) n);
 	/* `v=` on a successful poll line: extra revents bits the kernel reports together with readiness
 	 * (POLLHUP 16, POLLERR 8, …); the library only looks at poll's return value */
-	if (!e->is_err && e->ret > 0) pfd->revents = (short) (pfd->events | (short) e->val);
+	if (!e->is_err && e->ret > 0) pfd->revents = e->has_x ? (short) e->xval : (short) (pfd->events | (short) e->val);
 	return (int) fin (e);
 }
 int __real_shutdown (int, int);
@@ -276,6 +288,8 @@ static int parse_ll (const char *s, long long *v) { char *end; if (!*s) return 0
 static int parse_ull (const char *s, unsigned long long *v) { char *end; if (!*s || *s == '-') return 0; *v = strtoull (s, &end, 10); return *end == 0; }
 static int parse_slot (const char *s, int *v) { long long x; if (!parse_ll (s, &x) || x < 0 || x >= NSLOT) return 0; *v = (int) x; return 1; }
 static int parse_bool (const char *s, int *v) { if (!strcmp (s, "0")) { *v = 0; return 1; } if (!strcmp (s, "1")) { *v = 1; return 1; } return 0; }
+/* a pboolean argument given as any int (the API takes `pboolean` = int: every non-zero value means TRUE) */
+static int parse_pbool (const char *s, int *v) { long long x; if (!parse_ll (s, &x) || x < -2147483647LL - 1 || x > 2147483647LL) return 0; *v = (int) x; return 1; }
 
 static void clear_script (void) {
 	for (int i = 0; i < qt; i++) { free (q[i].data); free (q[i].sa); q[i].data = q[i].sa = NULL; }
@@ -297,7 +311,7 @@ typedef struct {
 
 static void begin_call (void) {
 	isslen = 0; if (isslog) isslog[0] = 0;
-	n_send = n_send_nosig = 0; cur_written = 0; have_na = 0;
+	n_send = n_send_nosig = 0; cur_written = 0; have_na = 0; have_pend = have_sw = 0;
 	errno = 0; in_call = 1;
 }
 
@@ -323,6 +337,7 @@ static void answer (CallOut *o) {
 	if (o->newslot >= 0 && o->created && !o->adopted) { int fd = slots[o->newslot]->fd; fprintf (out, "%d", fd >= 0 && fd < MAXFD ? cloexec_tab[fd] : 0); } else fputc ('-', out);
 	fprintf (out, " ns=");
 	if (n_send == 0) fputc ('-', out); else fputc (n_send == n_send_nosig ? '1' : '0', out);
+	if (have_sw) fprintf (out, " sw=%lld", sw_err); else fprintf (out, " sw=-");
 	fputc ('\n', out);
 	clear_script ();
 }
@@ -371,6 +386,7 @@ int main (void) {
 				else if (!strncmp (tok[i], "sa=", 3)) { free (e.sa); e.sa = parse_hex (tok[i] + 3, &n); if (n < 0) okx = 0; else e.salen = (size_t) n; }
 				else if (!strncmp (tok[i], "v=", 2)) { if (!parse_ll (tok[i] + 2, &e.val)) okx = 0; }
 				else if (!strncmp (tok[i], "l=", 2)) { if (!parse_ll (tok[i] + 2, &e.len)) okx = 0; }
+				else if (!strncmp (tok[i], "x=", 2)) { if (!parse_ll (tok[i] + 2, &e.xval)) okx = 0; else e.has_x = 1; }
 				else okx = 0;
 			}
 			if (!okx) { free (e.data); free (e.sa); BAD; }
@@ -403,7 +419,7 @@ int main (void) {
 				begin_call (); p_socket_free (slots[s]); slots[s] = NULL; o.slot = s; o.ret = 1; answer (&o);
 			}
 			else if (!strcmp (tok[0], "bind") && nt == 4) {
-				if (!parse_slot (tok[1], &s) || !parse_bool (tok[3], &b1)) BAD;
+				if (!parse_slot (tok[1], &s) || !parse_pbool (tok[3], &b1)) BAD;
 				addr = mk_addr (tok[2], &ok); if (!ok) BAD;
 				begin_call (); o.ret = p_socket_bind (slots[s], addr, b1, &o.err); o.slot = s; answer (&o);
 				if (addr) p_socket_address_free (addr);
@@ -477,11 +493,11 @@ int main (void) {
 				begin_call (); o.ret = p_socket_check_connect_result (slots[s], &o.err); o.slot = s; answer (&o);
 			}
 			else if (!strcmp (tok[0], "setka") && nt == 3) {
-				if (!parse_slot (tok[1], &s) || !parse_bool (tok[2], &b1)) BAD;
+				if (!parse_slot (tok[1], &s) || !parse_pbool (tok[2], &b1)) BAD;
 				begin_call (); p_socket_set_keepalive (slots[s], b1); o.ret = 1; o.slot = s; answer (&o);
 			}
 			else if (!strcmp (tok[0], "setblk") && nt == 3) {
-				if (!parse_slot (tok[1], &s) || !parse_bool (tok[2], &b1)) BAD;
+				if (!parse_slot (tok[1], &s) || !parse_pbool (tok[2], &b1)) BAD;
 				begin_call (); p_socket_set_blocking (slots[s], b1); o.ret = 1; o.slot = s; answer (&o);
 			}
 			else if (!strcmp (tok[0], "setbl") && nt == 3) {
